@@ -17,7 +17,7 @@ func init() {
 		Run:   runC16,
 		Explanation: "Decides clauses C16.1-C16.3 of DESIGN.md: (1) both informers get handler literals with AddFunc, UpdateFunc and DeleteFunc set; the pod handlers are the controller's addPod/updatePod/deletePod, the set handlers enqueue unconditionally; " +
 			"(2) skip discipline: every exit of a pod handler that is reachable without passing an enqueue carries one of the enumerated skip facts (owner resolved to nil; no matching set for an orphan; equal resource versions; orphan deleted; undecodable tombstone; orphan update with neither labels nor owner changed; add of a terminating pod forwarded to the delete handler); the three enqueue classes exist (old owner on owner change, current owner, every matching set for an orphan) and each is reached whenever its enabling condition holds (its path condition is implied by that condition: no extra guard); resolveControllerRef returns non-nil only for equal Kind and UID; " +
-			"(3) worker wiring: Done deferred, failure -> AddRateLimited and not Forget, success -> Forget (shared with C09.2). NOT decided: informer delivery itself and schedules.",
+			"(3) worker wiring: Done deferred, failure -> AddRateLimited and not Forget, success -> Forget (shared with C09.2). Set handlers: no exit of the handler literal is reachable without passing enqueueStatefulSet; skips are stated over the dynamic type of the delivered object. NOT decided: informer delivery itself and schedules.",
 	})
 }
 
